@@ -239,8 +239,8 @@ func RunTwoProviders(c *eng.Ctx, prop string, next func() (int, bool)) {
 					go func() { done <- st.serve() }()
 					select {
 					case <-blocked:
-					case <-time.After(20 * time.Second):
-						viol("request-failed", "the in-flight request never reached the handler")
+					case <-time.After(60 * time.Second):
+						c.R.Inconclusive(idx, "the in-flight request did not reach the handler within the watchdog")
 						close(block)
 						return
 					}
